@@ -1,0 +1,125 @@
+//! Verification hooks (cargo feature `mmtk_verif`).
+//!
+//! This module only *adds* code: thin public wrappers around crate-private items so that an
+//! out-of-tree harness can drive the real implementation, a lock-free event log, and seeded
+//! yield points. With the feature off this module is not compiled and nothing else changes.
+
+use crate::util::metadata::side_metadata::SideMetadataSpec;
+
+/// `revisitable_group_by` over a slice of `u64` keyed by `x % modulus` (`modulus == 0` means the
+/// identity key). Returns `(key, reported len, items yielded by the group)` per group.
+pub fn rev_group(items: &[u64], modulus: u64) -> Vec<(u64, usize, Vec<u64>)> {
+    use crate::util::rust_util::rev_group::RevisitableGroupByForIterator;
+    items
+        .iter()
+        .copied()
+        .revisitable_group_by(|x| if modulus == 0 { *x } else { *x % modulus })
+        .map(|g| (g.key, g.len, g.collect::<Vec<_>>()))
+        .collect()
+}
+
+/// The mimalloc size-class function on an already aligned size.
+pub fn mi_bin_from_size(size: usize) -> usize {
+    crate::policy::marksweepspace::native_ms::verif_mi_bin_from_size(size)
+}
+
+/// The mimalloc size-class function as the allocator calls it.
+pub fn mi_bin<VM: crate::vm::VMBinding>(size: usize, align: usize) -> usize {
+    crate::policy::marksweepspace::native_ms::mi_bin::<VM>(size, align)
+}
+
+/// Cell size of every bin.
+pub fn mi_bin_sizes() -> Vec<usize> {
+    crate::policy::marksweepspace::native_ms::verif_bin_sizes()
+}
+
+/// `(MAX_BIN, MI_BIN_FULL, MAX_BIN_SIZE, MI_LARGE_OBJ_SIZE_MAX, native MS Block::BYTES)`.
+pub fn mi_consts() -> (usize, usize, usize, usize, usize) {
+    use crate::policy::marksweepspace::native_ms::*;
+    use crate::util::linear_scan::Region;
+    (
+        MAX_BIN,
+        MI_BIN_FULL,
+        MAX_BIN_SIZE,
+        MI_LARGE_OBJ_SIZE_MAX,
+        crate::policy::marksweepspace::native_ms::Block::BYTES,
+    )
+}
+
+/// The overlap predicate of the side-metadata sanity checker (`true` = accepted as disjoint).
+pub fn sanity_no_overlap_contiguous(a: &SideMetadataSpec, b: &SideMetadataSpec) -> bool {
+    crate::util::metadata::side_metadata::verif_hooks::no_overlap_contiguous(a, b)
+}
+
+/// Size of the metadata address range a contiguous spec covers.
+pub fn metadata_address_range_size(s: &SideMetadataSpec) -> usize {
+    crate::util::metadata::side_metadata::verif_hooks::metadata_address_range_size(s)
+}
+
+/// Space descriptors (crate-private type): raw encodings and decoders.
+pub mod desc {
+    use crate::util::heap::space_descriptor::SpaceDescriptor;
+    use crate::util::Address;
+
+    /// Raw bits of a descriptor.
+    fn raw(d: SpaceDescriptor) -> usize {
+        // SpaceDescriptor is repr(transparent) over usize.
+        unsafe { std::mem::transmute::<SpaceDescriptor, usize>(d) }
+    }
+
+    /// `create_descriptor_from_heap_range`, returning
+    /// `(raw, is_empty, is_contiguous, is_contiguous_hi, get_start, get_extent, get_index)`.
+    pub fn from_heap_range(start: Address, end: Address) -> (usize, bool, bool, bool, usize, usize, usize) {
+        let d = SpaceDescriptor::create_descriptor_from_heap_range(start, end);
+        (
+            raw(d),
+            d.is_empty(),
+            d.is_contiguous(),
+            d.is_contiguous_hi(),
+            d.get_start().as_usize(),
+            d.get_extent(),
+            d.get_index(),
+        )
+    }
+
+    /// `create_descriptor` (discontiguous), returning `(raw, is_empty, is_contiguous, is_contiguous_hi, get_index)`.
+    pub fn discontiguous() -> (usize, bool, bool, bool, usize) {
+        let d = SpaceDescriptor::create_descriptor();
+        (raw(d), d.is_empty(), d.is_contiguous(), d.is_contiguous_hi(), d.get_index())
+    }
+}
+
+/// Allocation alignment arithmetic (crate-private module `util::alloc::allocator`).
+pub mod align {
+    use crate::util::Address;
+    use crate::vm::VMBinding;
+
+    /// `align_allocation_inner` without gap filling.
+    pub fn align_allocation_inner<VM: VMBinding>(
+        region: Address,
+        alignment: usize,
+        offset: usize,
+        known_alignment: usize,
+    ) -> Address {
+        crate::util::alloc::allocator::align_allocation_inner::<VM>(
+            region,
+            alignment,
+            offset,
+            known_alignment,
+            false,
+        )
+    }
+
+    /// `get_maximum_aligned_size_inner`.
+    pub fn get_maximum_aligned_size_inner<VM: VMBinding>(
+        size: usize,
+        alignment: usize,
+        known_alignment: usize,
+    ) -> usize {
+        crate::util::alloc::allocator::get_maximum_aligned_size_inner::<VM>(
+            size,
+            alignment,
+            known_alignment,
+        )
+    }
+}
